@@ -86,6 +86,10 @@ static inline StateMelem StateMelem_id(StateMelem x) { return x; }
 static inline StateMelem StateMelem_from_si(StateInt *x) { StateMelem r; r.s = x->s; r.m = (double)x->m; return r; }
 #define StateMelem_ctor1(x) _Generic((x), StateMelem: StateMelem_id, StateInt *: StateMelem_from_si)(x)
 
+/* twins for the other spelling of an increment (`++it` for `it++` and vice versa): same effect.  X_inc yields the iterator after the step
+ * (exact); X_postinc made from X_inc is void, so a use of its value does not compile (UNDECIDED) instead of being modelled wrongly */
+#define UVecIt_inc(it_) (UVecIt_postinc(it_), (it_))      /* pre-increment: the iterator itself, after the step */
+#define MonoIt_postinc(it_) ((void)MonoIt_inc(it_))
 //@function Pomerol::Operator::actRight(std::vector<boost::tuples::tuple<Pomerol::Operator::op_type, unsigned int, boost::tuples::null_type, boost::tuples::null_type, boost::tuples::null_type, boost::tuples::null_type, boost::tuples::null_type, boost::tuples::null_type, boost::tuples::null_type, boost::tuples::null_type>, std::allocator<boost::tuples::tuple<Pomerol::Operator::op_type, unsigned int, boost::tuples::null_type, boost::tuples::null_type, boost::tuples::null_type, boost::tuples::null_type, boost::tuples::null_type, boost::tuples::null_type, boost::tuples::null_type, boost::tuples::null_type> > > const&, boost::dynamic_bitset<unsigned long, std::allocator<unsigned long> > const&) as Operator_actRight
 //@contract
 __CPROVER_requires(__CPROVER_is_fresh(in, sizeof(*in)) && Monomial_wf(in) && Bitset_wf(ket))
